@@ -59,6 +59,12 @@ CHECKS = {
   text="9 script families (value, binding, throwing, undefined variable, syntax error, non-terminating with Env.sleep, slow-but-finishing at 4/6/12 ms) x 12 timeout settings (Control.JavascriptTimeout {0,5ms,negative} x DefaultJavascriptTimeout {10ms,negative} x JavascriptTimeouts on/off) x 3 contexts (Location.RunJavascript, rule condition, rule action through ProcessEvent) run under the scheduler with virtual time; every schedule with at most 2 deviations (3 thorough), where the watchdog timer landing early at any scheduling point is a deviation. The caller must return on every schedule; an overrunning script must yield an error / non-complete node within limit + one wait quantum; throwing and invalid scripts yield errors; within-limit scripts return their value. Busy loops without a scheduling point run natively in child processes against a 20 s deadline (3 isolated runs).",
   note="Code between scheduling points takes no virtual time; an early timer landing models slow real execution, so a finishing script may then end either way (but never hang, never success with a nil value).",
   design="2/C14"),
+ "C16": dict(
+  engine="SCHED+SEQ",
+  technique="stateless schedule exploration of the in-memory cron under the controlled scheduler with virtual time, plus explicit-state BFS over operation histories (including reopen points and transaction-granularity interruptions of Add) of the real Bolt-backed crolt service",
+  text="In-memory cron.Cron: loop goroutine, firing goroutines and 1-2 client threads issuing Add (one-shot, recurring every second), Rem, replace, Suspend/Resume/Pause, horizon 4 virtual seconds, every schedule with at most 2 deviations (3 thorough; an early timer landing is a deviation): no callback before the due time, one-shot exactly once, recurring at most once per occurrence, at most one pending entry per id at an arbitrary observation point, nothing fires after Rem returned, suspension only delays. crolt: BFS to depth 6 (8 thorough) over {POST add (one-shot 1s/1500ms, recurring), POST rem, DeleteAccount, one work() pass per partition, clock += 500ms/1s/TTL, close-and-reopen the Bolt file, Add interrupted between its existence check and its write by a second client's Add/Delete/DeleteAccount/work} on a real Bolt file with a virtual clock and a recording HTTP RoundTripper; after every operation jobs<p> and time<p> must agree key for key with one time key per job, and no firing may precede the instant in its time key, hit a deleted job, repeat within a pass or repeat for a one-shot.",
+  note="crolt is package main: its explorer is injected into the package through the overlay and run as a subprocess. MaxJitter = 0. A second crolt client interleaves at transaction granularity only (Bolt serialises transactions); crash atomicity inside one Bolt transaction is Bolt's guarantee. Two engines decide this property; bin/run.sh runs both and folds the evidence.",
+  design="2/C16"),
  "C17": dict(
   engine="SEQ+SCHED",
   technique="explicit-state differential model checking over cache configurations (BFS over request histories run on seven worlds at once) plus stateless schedule exploration of concurrent requests through sys.System",
